@@ -160,8 +160,19 @@ def forward_substitute(fn, keep=()):
         binds, params, count, par, where = _single_bindings(new)
         # a binding is usable when everything it reads is never rebound in the function
         usable = {}
+        # a local whose object is changed in place (x.pop(..) / x.append(..) as a statement, x[k] = .., del x[k], x += ..)
+        # is not the value of its defining expression any more
+        mutated = set()
+        for n_ in ast.walk(new):
+            if isinstance(n_, ast.Expr) and isinstance(n_.value, ast.Call) and isinstance(n_.value.func, ast.Attribute) \
+                    and isinstance(n_.value.func.value, ast.Name):
+                mutated.add(n_.value.func.value.id)
+            if isinstance(n_, (ast.Assign, ast.AugAssign, ast.Delete)):
+                for t_ in (n_.targets if not isinstance(n_, ast.AugAssign) else [n_.target]):
+                    if isinstance(t_, ast.Subscript) and isinstance(t_.value, ast.Name):
+                        mutated.add(t_.value.id)
         for k, (node, value) in binds.items():
-            if k in keep:
+            if k in keep or k in mutated:
                 continue
             if any(isinstance(x, (ast.Yield, ast.YieldFrom, ast.Await, ast.NamedExpr, ast.Lambda)) for x in ast.walk(value)):
                 continue
